@@ -3,7 +3,7 @@
     used by the proxy layers).  The kernel is an input: a script of results, one per write attempt
     ([KAcc n]: min(n, len) bytes accepted; [KWould]: EWOULDBLOCK; [KFail]: G_IO_ERROR_FAILED;
     [KErr]: any other error); an exhausted script accepts everything.  [G] is the value of
-    uninitialised heap bytes.  No proofs in this file. *)
+    uninitialised heap bytes (the queued element is allocated with g_malloc and then filled by the copy loop).  No proofs in this file. *)
 From Coq Require Import ZArith List Bool.
 From Nice Require Import Stream.StreamBase.
 Import ListNotations.
@@ -16,8 +16,7 @@ Inductive qev :=
 | QKe (k : kres)             (* Kw / Kf / Kx *)
 | QS (r : Z)                 (* S<ret> *)
 | QW | QZ                    (* W, Z markers *)
-| QC (b : bool)              (* C<0|1> *)
-| QPart (bufs : list (list Z)) (off : Z).   (* not printed: a partial direct write left [off] bytes accepted *)
+| QC (b : bool).             (* C<0|1> *)
 
 Inductive qop := QSend (reliable : bool) (bufs : list (list Z)) | QWritable | QCanSend | QDrain.
 
@@ -25,7 +24,8 @@ Record qst := { queue : list (list Z); script : list kres }.
 
 Fixpoint sumlen (bufs : list (list Z)) : Z := match bufs with [] => 0 | b :: t => lenZ b + sumlen t end.
 
-(** the copy loop of nice_socket_queue_send_with_callback: bytes actually written into tbs->buf *)
+(** the copy loop of nice_socket_queue_send_with_callback: bytes written into tbs->buf.  Buffers that lie wholly
+    inside message_offset are skipped; the offset is used up by the first buffer copied from. *)
 Fixpoint qcopy (bufs : list (list Z)) (moff room : Z) : list Z :=
   match bufs with
   | [] => []
@@ -33,7 +33,7 @@ Fixpoint qcopy (bufs : list (list Z)) (moff room : Z) : list Z :=
       if lenZ b <=? moff then qcopy t (moff - lenZ b) room
       else
         let len := Z.min room (lenZ b - moff) in
-        takeZ len (dropZ moff b) ++ qcopy t (if len <=? moff then moff - len else 0) (room - len)
+        takeZ len (dropZ moff b) ++ qcopy t 0 (room - len)
   end.
 
 (** the queued element (None when message_offset >= message_len: nothing is queued) *)
@@ -49,16 +49,6 @@ Definition push_head (q : list (list Z)) (o : option (list Z)) := match o with S
 Definition next_k (sc : list kres) : kres * list kres :=
   match sc with [] => (KAcc W64, []) | k :: t => (k, t) end.
 
-(** syntactic description of the inputs on which the offset arithmetic of
-    nice_socket_queue_send_with_callback goes wrong: the accepted prefix ends inside a buffer, further into
-    it than what is left of it, and a later buffer still has bytes *)
-Fixpoint offbug (bufs : list (list Z)) (off : Z) : bool :=
-  match bufs with
-  | [] => false
-  | b :: t => if lenZ b <=? off then offbug t (off - lenZ b)
-              else (lenZ b - off <? off) && (0 <? sumlen t)
-  end.
-
 (** socket_send_message + socket_send_messages(_reliable) for one message *)
 Definition q_send (G : Z) (s : qst) (reliable : bool) (bufs : list (list Z)) : qst * list qev :=
   let mlen := sumlen bufs in
@@ -72,7 +62,7 @@ Definition q_send (G : Z) (s : qst) (reliable : bool) (bufs : list (list Z)) : q
           let n' := Z.max 0 (Z.min n mlen) in
           if n' <? mlen then
             ({| queue := push_head [] (qelem G bufs n' mlen); script := sc |},
-             [QK (takeZ n' flat); QPart bufs n'; QS (fin mlen)])
+             [QK (takeZ n' flat); QS (fin mlen)])
           else ({| queue := []; script := sc |}, [QK (takeZ n' flat); QS (fin n')])
       | KWould | KFail =>
           ({| queue := push_tail [] (qelem G bufs 0 mlen); script := sc |}, [QKe k; QS (fin mlen)])
